@@ -191,7 +191,8 @@ func execEncW(args []string) string {
 		}
 		d.buf = d.buf[pre:]
 	}
-	return fmt.Sprintf("%s %s wb=%s", status, hex.EncodeToString(d.buf), strings.Join(wb, ","))
+	// the library's own integrity check on what arrived at the destination (C02: "accepts the stream and counts the same number of sequences")
+	return fmt.Sprintf("%s %s wb=%s ci=%s", status, hex.EncodeToString(d.buf), strings.Join(wb, ","), wrCheck(d.buf))
 }
 
 // ---- generator
